@@ -98,6 +98,23 @@ func (f *Fn) EvalFnWith(args []Val, ext func(f *Fn, call *ast.CallExpr, recv Val
 	return r.vals, final, nil
 }
 
+// litOf: the function literal fun denotes - the literal itself, or a local variable whose
+// current value is a literal (funcVal).
+func (e *evalEnv) litOf(fun ast.Expr) *ast.FuncLit {
+	switch f := ast.Unparen(fun).(type) {
+	case *ast.FuncLit:
+		return f
+	case *ast.Ident:
+		if v, ok := e.vars[e.f.Info.ObjectOf(f)].(funcVal); ok {
+			return v.lit
+		}
+	}
+	return nil
+}
+
+// funcVal is a function literal held in a variable.
+type funcVal struct{ lit *ast.FuncLit }
+
 func (e *evalEnv) block(list []ast.Stmt) *returned {
 	for _, s := range list {
 		if r := e.stmt(s); r != nil {
@@ -557,6 +574,19 @@ func (e *evalEnv) expr(x ast.Expr) Val {
 		if _, ok := o.(*types.Nil); ok {
 			return nilVal{}
 		}
+		// a package-level list initialised by a literal (read-only use is assumed: the
+		// callers of the evaluator check who writes it when that matters)
+		if gv, ok := o.(*types.Var); ok && gv.Pkg() != nil && gv.Parent() == gv.Pkg().Scope() {
+			if lit := globalInit(e.f.C, gv); lit != nil {
+				if pp := e.f.C.Pkgs[gv.Pkg().Path()]; pp != nil {
+					owner := &Fn{C: e.f.C, Name: "init of " + gv.Name(), Pkg: pp, Info: pp.TypesInfo}
+					sub := &evalEnv{f: owner, vars: map[types.Object]Val{}, depth: e.depth + 1}
+					if v, isSlice := sub.expr(lit).(sliceVal); isSlice {
+						return v
+					}
+				}
+			}
+		}
 		undecided("free variable %s", x.Name)
 	case *ast.SelectorExpr:
 		o := e.f.Info.ObjectOf(x.Sel)
@@ -567,7 +597,54 @@ func (e *evalEnv) expr(x ast.Expr) Val {
 			return v
 		}
 		undecided("selector %s", types.ExprString(x))
+	case *ast.FuncLit:
+		return funcVal{lit: x}
 	case *ast.CompositeLit:
+		// a slice/array literal of plain elements is its elements
+		if tv, ok := e.f.Info.Types[x]; ok {
+			isSeq := false
+			switch tv.Type.Underlying().(type) {
+			case *types.Slice, *types.Array:
+				isSeq = true
+			}
+			if isSeq {
+				plain := true
+				for _, el := range x.Elts {
+					if _, kv := el.(*ast.KeyValueExpr); kv {
+						plain = false
+					}
+					if _, cl := ast.Unparen(el).(*ast.CompositeLit); cl {
+						plain = false
+					}
+				}
+				if plain {
+					out := sliceVal{}
+					okAll := true
+					for _, el := range x.Elts {
+						var v Val
+						func() {
+							defer func() {
+								if r := recover(); r != nil {
+									if _, isU := r.(evalUndecided); isU {
+										okAll = false
+										return
+									}
+									panic(r)
+								}
+							}()
+							v = e.expr(el)
+						}()
+						if !okAll {
+							break
+						}
+						out = append(out, v)
+					}
+					if okAll {
+						return out
+					}
+				}
+			}
+		}
 		// an opaque freshly built object (its methods get meaning from the ext callback)
 		return objVal{id: big.NewInt(int64(x.Pos()))}
 	case *ast.UnaryExpr:
@@ -743,6 +820,17 @@ func (e *evalEnv) expr(x ast.Expr) Val {
 		for _, a := range x.Args {
 			args = append(args, e.expr(a))
 		}
+		if id, ok := ast.Unparen(x.Fun).(*ast.Ident); ok && len(args) == 1 {
+			if b, ok := e.f.Info.Uses[id].(*types.Builtin); ok && b.Name() == "len" {
+				switch a := args[0].(type) {
+				case sliceVal:
+					return big.NewInt(int64(len(a)))
+				case string:
+					return big.NewInt(int64(len(a)))
+				}
+				undecided("len of an opaque value")
+			}
+		}
 		if id, ok := ast.Unparen(x.Fun).(*ast.Ident); ok && len(args) > 0 {
 			if b, ok := e.f.Info.Uses[id].(*types.Builtin); ok && (b.Name() == "min" || b.Name() == "max") {
 				best, ok := args[0].(*big.Int)
@@ -778,6 +866,37 @@ func (e *evalEnv) expr(x ast.Expr) Val {
 			if v, ok := e.ext(e.f, x, recv, args); ok {
 				return v
 			}
+		}
+		// a literal invoked on the spot (what an inlined helper looks like), or a local that
+		// holds a literal: the body runs in the same variable environment (captured
+		// variables are the caller's), with its parameters bound
+		if lit := e.litOf(x.Fun); lit != nil && e.depth < 8 {
+			sub := &evalEnv{f: e.f, vars: e.vars, depth: e.depth + 1, ext: e.ext, pre: e.pre}
+			i := 0
+			if lit.Type.Params != nil {
+				for _, fld := range lit.Type.Params.List {
+					for _, nm := range fld.Names {
+						if i < len(args) {
+							sub.vars[e.f.Info.Defs[nm]] = args[i]
+						}
+						i++
+					}
+				}
+			}
+			if i != len(args) {
+				undecided("call %s: argument count", types.ExprString(x.Fun))
+			}
+			r := sub.block(lit.Body.List)
+			if r != nil && r.ctl != "" {
+				undecided("stray %s in literal", r.ctl)
+			}
+			if r == nil || len(r.vals) == 0 {
+				undecided("call %s: no value", types.ExprString(x.Fun))
+			}
+			if len(r.vals) == 1 {
+				return r.vals[0]
+			}
+			return tupleVal(r.vals)
 		}
 		callee := e.f.Callee(x)
 		if callee != nil {
